@@ -77,9 +77,13 @@ theorem c01_acknowledged_in_log {c : Cfg} (hs : SeqHyp c) {s : St} {tr : List Ev
     (hr : (id, Res.ok off ts tt) ∈ s.resolved) : id ∈ logIds s := by
   have hi := inv_run hs h
   obtain ⟨_, hl⟩ := hi.i5.coords _ (Or.inr hr) off ts tt rfl
-  have := List.mem_of_getElem? hl
-  simp only [logIds, List.mem_map]
-  exact ⟨_, this, rfl⟩
+  have hk : tt ≤ 1 := hi.i10 _ (Or.inr hr) off ts tt rfl
+  have hm := List.mem_of_getElem? hl
+  show id ∈ dataIds s.br.log
+  simp only [dataIds, List.mem_map, List.mem_filter]
+  refine ⟨_, ⟨hm, ?_⟩, rfl⟩
+  simp only [bne_iff_ne, ne_eq]
+  omega
 
 /-- **per-task order**: the records in the log of an idempotent producer, taken as accepted
     records, keep the order in which each task issued them -/
@@ -237,6 +241,21 @@ example :
     SeqHyp c ∧ ∃ s, run c (St.init c) tr = .ok s ∧ logIds s = [0, 1, 2] ∧ s.fatal = 0 ∧ s.gaveUp = 0 ∧
       s.seqErrs = 0 ∧ s.nextSeq = 1 := by
   refine ⟨by unfold SeqHyp M31; exact ⟨by decide, by decide⟩, _, rfl, ?_⟩
+  decide
+
+/-! ## non-vacuity, transactional producer: two transactions on one partition (the second aborted);
+    the coordinator's markers occupy offsets 1 and 3, the base sequences continue across them — and a
+    history in which the second transaction starts again at sequence 0 is not accepted -/
+example :
+    let c : Cfg := { idem := true, acks0 := false, wrapFix := true, pid := 1, epoch := 0, seq0 := 0, version := 7 }
+    let tr : List Ev :=
+      [.acc 0 0 10, .send 1 0 0 [0], .apply 0 1 .append 0 (-1), .done (.fields [0, 0, 0, -1, 0]),
+       .resolved 0 (.ok 0 10 0), .marker 1,
+       .acc 0 1 11, .send 1 0 1 [1], .apply 1 1 .append 2 (-1), .done (.fields [0, 0, 2, -1, 0]),
+       .resolved 1 (.ok 2 11 0), .marker 3]
+    (∃ s, run c (St.init c) tr = .ok s ∧ logIds s = [0, 1] ∧ s.br.log.length = 4 ∧ s.seqErrs = 0) ∧
+      run c (St.init c) (tr.take 7 ++ [.send 1 0 0 [1]]) = .error (.client .stamp) := by
+  refine ⟨⟨_, rfl, ?_⟩, rfl⟩
   decide
 
 end AkVerif.Producer
